@@ -41,6 +41,7 @@ def parseCtx (s : String) : Option Ctx :=
   match s.splitOn ":" with
   | ["t", x] => x.toInt?.map Ctx.transfer
   | ["x", x] => x.toInt?.map Ctx.transfer
+  | ["s", x] => x.toInt?.map Ctx.transfer       -- transfer(from, from, amt): the amount counts like any other
   | "m" :: _ => some .malformed
   | "o" :: _ => some .otherCall
   | "c" :: _ => some .createContract
@@ -83,7 +84,7 @@ def parseOp (ws : List String) : Option POp :=
     pure { kind, a, r, rs := natList ((kv? rest "rs").getD "-"), thr,
            w := parsePairs ((kv? rest "w").getD "-"), sgn, wt, lim, per,
            ctxS, ctx := (parseCtx ctxS).getD .otherCall,
-           isTransfer := ctxS.startsWith "t:" ∨ ctxS.startsWith "x:",
+           isTransfer := ctxS.startsWith "t:" ∨ ctxS.startsWith "x:" ∨ ctxS.startsWith "s:",
            amount := ((ctxS.drop 2).toString.toInt?).getD 0,
            sg := natList ((kv? rest "sg").getD "-"),
            auth := natList ((kv? rest "auth").getD "-") }
